@@ -120,6 +120,8 @@ def run(tier, seed, replay):
             r = rng.random()
             a, b = rng.randrange(1, nent + 1), rng.randrange(1, nent + 1)
             k = rng.randrange(2)
+            if rng.random() < 0.25:
+                ops.append("q")             # a replication tick in between (rebuild_graphs + lookup)
             if r < 0.6:
                 ops.append("a:%x:%x:%x" % (k, a, b))
                 edges.append((k, a, b))
@@ -210,7 +212,8 @@ def run(tier, seed, replay):
         rep.violation("harness-build", dict(what="sim harness does not build", log=out[-2000:]), False)
         return rep.finish()
     kws = [dict(max_size=1, burst=0.1), dict(max_size=1, rel=True, burst=0.08, weights=dict(drop=1.5, sop=7.0)), dict(max_size=30, rel=True, weights=dict(drop=1.5)), dict(max_size=60, track=True, rel=True),
-           dict(max_size=1, nclients=2, track=True), dict(max_size=1, rel=True, policy="black", nclients=2)]
+           dict(max_size=1, nclients=2, track=True), dict(max_size=1, rel=True, policy="black", nclients=2),
+           dict(max_size=1, rel=True, rel_heavy=True, burst=0.15, length=90), dict(max_size=1, rel=True, rel_heavy=True, burst=0.15, length=60, nclients=2)]
     o2, d2 = simcheck.sim_collect(rep, "C10", tier, rng, seed, kws, 160, 16000, oracle_props={"C10", "C02"},
                                   rule_extra=", tiny per-client max message sizes so that every tick's mutations are split, with mutate messages dropped and reordered, and a relationship registered with "
                                   "sync_related_entities set / replaced / cleared between entities (related entities must share a mutate message)")
